@@ -151,6 +151,10 @@ class Spec(object):
     def nontrivial(self, cfg, res):
         return "multi_record" in res.flags
 
+    def explicit_families(self, tier):
+        # complete state-space closure of the shared small networks (the monitor judges every transition of the graph)
+        return explicit_basic(tier)
+
     def families(self, tier):
         return focused(tier) + universal.family(tier)
 
